@@ -30,4 +30,6 @@ func findCheck(id string) *Check {
 }
 
 // schedTrack: coarse component atomics + happens-before access probes (C19).
-var schedTrack = Build{Kind: "sched", Coarse: []string{"rbmutex.go", "counter.go", "buffer.go"}, Track: true}
+// BlockBufferSize (4 MiB scratch buffers allocated by every Persist) is rewritten to 4 KiB: it only sizes buffers.
+var schedTrack = Build{Kind: "sched", Coarse: []string{"rbmutex.go", "counter.go", "buffer.go"}, Track: true,
+	Consts: map[string]string{"persistence.go:BlockBufferSize": "4096"}}
